@@ -305,6 +305,106 @@ def structured_cases(rng, lzo):
             out.append({"script": build_script(head2, "eof", h2, [], b""), "kind": "guard", "expect_false": None, "tag": "guard:name-cap"})
             h3 = hs[:14] + struct.pack(">I", 1) + struct.pack(">I", ln) + b"r" * min(ln, 1 << 20)
             out.append({"script": build_script(head2, "eof", h3, [], b""), "kind": "guard", "expect_false": True, "tag": "guard:reason-cap"})
+    out += handshake_cases()
+    out += lzo_sequence_cases()
+    return out
+
+
+def handshake_cases():
+    """hostile 3.7/3.8 handshakes: security-type lists of EVERY count 0..255 without a single usable
+    type (the library must log and return FALSE), failure reasons of many lengths"""
+    out = []
+    F = E.FMT_BY_NAME
+    fmt = F["rgb888le"]
+    head = ["client %s enc=raw cursor=0 fbmode=2" % " ".join(str(v) for v in fmt.tuple()), "seg 0"]
+    # never usable: not None(1)/VncAuth(2)/Tight(16)/Ultra(17)/TLS(18)/VeNCrypt(19)/SASL(20); ARD(30) and
+    # MSLogonII(113) need a credential callback the harness does not install
+    pools = [[t for t in range(100, 256) if t != 113], [t for t in range(21, 100) if t != 30], [3, 4, 5, 6, 7, 8, 9],
+             [t for t in range(3, 256) if t not in (16, 17, 18, 19, 20, 30, 113)]]
+    tail = struct.pack(">I", 0) + struct.pack(">HH", 4, 4) + F["rgb888le"].wire() + struct.pack(">I", 1) + b"x"
+    for ver in (b"RFB 003.008\n", b"RFB 003.007\n"):
+        for c in range(256):
+            pool = pools[c % 4]
+            types = [pool[(i * 7 + c) % len(pool)] for i in range(c)]
+            reason = struct.pack(">I", 11) + b"no security" if c == 0 else (tail if c % 3 == 0 else b"")
+            out.append({"script": build_script(head, "eof" if c % 2 else "eagain", ver + bytes([c]) + bytes(types) + reason, [], b""),
+                        "kind": "guard", "expect_false": True, "tag": "guard:sectypes-none-usable"})
+        # three-digit types only, long lists: the longest log lines
+        for c in (99, 100, 101, 102, 124, 125, 126, 127, 167, 168, 169, 200, 254, 255):
+            for t0 in (255, 200, 100):
+                out.append({"script": build_script(head, "eof", ver + bytes([c]) + bytes([t0] * c), [], b""),
+                            "kind": "guard", "expect_false": True, "tag": "guard:sectypes-long-log"})
+        for ln in (0, 1, 100, 255, 256, 499, 500, 501, 4095, 4096, 65536, 1 << 20):
+            r = struct.pack(">I", ln) + b"R" * ln
+            out.append({"script": build_script(head, "eof", ver + bytes([0]) + r, [], b""), "kind": "guard", "expect_false": True,
+                        "tag": "guard:reason-text"})
+            if ver == b"RFB 003.008\n":
+                for res in (1, 2, 3, 0xFFFFFFFF):
+                    out.append({"script": build_script(head, "eof", ver + bytes([1, 1]) + struct.pack(">I", res) + r, [], b""),
+                                "kind": "guard", "expect_false": True, "tag": "guard:reason-text"})
+    for ln in (0, 1, 500, 501, 1 << 20):
+        out.append({"script": build_script(head, "eof", b"RFB 003.003\n" + struct.pack(">I", 0) + struct.pack(">I", ln) + b"R" * ln, [], b""),
+                    "kind": "guard", "expect_false": True, "tag": "guard:reason-text"})
+    return out
+
+
+def lzo_sequence_cases():
+    """state carried across rectangles: ultra_buffer / raw_buffer are grown on demand and their
+    recorded sizes are compared with the next rectangle's lengths.  Pairs of valid Ultra / UltraZip
+    (and Zlib) rectangles whose compressed / raw lengths lie in close succession (C-1 .. C+4)."""
+    out = []
+    F = E.FMT_BY_NAME
+    for fmt in (F["bgr233"], F["rgb888le"]):
+        bp = fmt.bytespp
+        W, H = 252, 3
+        head = ["client %s enc=ultra+zlib cursor=0 fbmode=1" % " ".join(str(v) for v in fmt.tuple()), "seg 0"]
+        hs = E.handshake(F["rgb888le"], W, H, b"u")
+
+        def pixels(n, salt):
+            return bytes((i * 5 + salt) & (0xFF if bp == 1 else 0x7F) for i in range(n * bp))
+
+        def u_rect(n, salt):            # Ultra: n x 1 pixels, literal-only LZO1X
+            plain = pixels(n, salt)
+            z = c07.lzo_literal(plain)
+            return struct.pack(">HHHHI", 0, 1, n, 1, 9) + struct.pack(">I", len(z)) + z, ["z 5 %s %s" % (hexs(z), hexs(plain))], len(z)
+
+        def uz_rect(n, salt):           # UltraZip: one cached raw sub-rectangle of n x 1 pixels
+            plain = struct.pack(">HHHHI", 0, 2, n, 1, 0) + pixels(n, salt)
+            z = c07.lzo_literal(plain)
+            return struct.pack(">HHHHI", 1, len(plain), 0, 0, E.ENC["ultrazip"]) + struct.pack(">I", len(z)) + z, [], len(z)
+
+        def zl_rect(n, salt, co):
+            plain = pixels(n, salt)
+            z = co.compress(plain) + co.flush(zlib.Z_SYNC_FLUSH)
+            return struct.pack(">HHHHI", 0, 0, n, 1, 6) + struct.pack(">I", len(z)) + z, ["z 4 %s %s" % (hexs(z), hexs(plain))], len(z)
+        mk = {"u": u_rect, "uz": uz_rect}
+        ns = [n for n in (17, 18, 19, 20, 29, 45, 46, 47, 48) if n * bp + 12 <= 238]
+        for n1 in ns:
+            for k1, k2 in (("uz", "u"), ("uz", "uz"), ("u", "uz"), ("u", "u")):
+                r1, z1, c1 = mk[k1](n1, 1)
+                for n2 in range(max(1, n1 - 14), n1 + 16):
+                    r2, z2, c2 = mk[k2](n2, 2)
+                    if not (-1 <= c2 - c1 <= 4):
+                        continue
+                    r3, z3, _ = u_rect(n1, 3)
+                    for split in (True, False):
+                        m = (E.fbu([r1]) + E.fbu([r2]) + E.fbu([r3])) if split else E.fbu([r1, r2, r3])
+                        out.append({"script": build_script(head, "eof", hs, [], m, zlines=z1 + z2 + z3), "kind": "guard",
+                                    "expect_false": False, "tag": "guard:lzo-sequence:%s-%s" % (k1, k2)})
+        # raw_buffer: Zlib allocates exactly, Ultra rounds up to 4 (and allocates the rounded size), UltraZip adds 500
+        for n1 in (13, 14, 15, 16, 41, 42, 43):
+            for d in (-1, 0, 1, 2, 3, 4):
+                for order in ("zu", "uz", "zz", "Zu"):
+                    co = zlib.compressobj(1)
+                    if order[0] == "z":
+                        r1, z1, _ = zl_rect(n1, 1, co)
+                    elif order[0] == "Z":
+                        r1, z1, _ = uz_rect(n1, 1)
+                    else:
+                        r1, z1, _ = u_rect(n1, 1)
+                    r2, z2, _ = zl_rect(n1 + d, 2, co) if order[1] == "z" else u_rect(n1 + d, 2)
+                    out.append({"script": build_script(head, "eof", hs, [], E.fbu([r1]) + E.fbu([r2]), zlines=z1 + z2), "kind": "guard",
+                                "expect_false": False, "tag": "guard:rawbuf-sequence"})
     return out
 
 
